@@ -1,4 +1,4 @@
-CONSTANTS MCKinds <- AllKinds  Enforce <- AllProps  Configs <- MCConfigs  Requests <- MCRequests  Opcodes <- AllOps  LenClasses <- AllLens
+CONSTANTS MCKinds <- AllKinds  Enforce <- AllProps  Configs <- MCConfigs  Requests <- MCRequests  Opcodes <- AllOps  LenClasses <- AllLens  DbSlots <- AllDb
 SPECIFICATION Spec
 INVARIANTS TypeOK RevealAfterVerify OrderOnly KeyOnlyAfterSuccess DistAfterCompletion StatusSound
 PROPERTIES DistOnlyEncrypted
